@@ -1040,7 +1040,7 @@ pub fn f8() -> Vec<Case> {
         }
     }
     // two dimensions
-    for (i0, i1) in [(1i64, -1i64), (2, 0), (0, 0), (3, 0), (1, 1), (1, -2)] {
+    for (i0, i1) in [(1i64, -1i64), (1, 0), (2, -1), (2, 0), (0, 0), (3, 0), (1, 1), (1, -2)] {
         for write in [false, true] {
             let arr = Decl { name: "m".into(), ty: TyX::Arr2(1, 2, -1, 0, Ty::DInt), init: None };
             let fill = vec![
@@ -1060,6 +1060,41 @@ pub fn f8() -> Vec<Case> {
             let p = prog(vec![arr, Decl::init("p", int(Ty::Int, i0 as i128)), Decl::init("q", int(Ty::Int, i1 as i128)), Decl::new("r", Ty::DInt)], body);
             out.push(case("F8", format!("array2:{}:{}", if write { "write" } else { "read" }, if inb { "inside" } else { "outside" }), p, 1, true));
         }
+    }
+    // whole-aggregate assignment is a copy: later writes to one side do not reach the other
+    {
+        let arr = |n: &str| Decl { name: n.into(), ty: TyX::Arr(0, 2, Ty::Int), init: None };
+        let p = prog(
+            vec![arr("a"), arr("b"), Decl::new("r", Ty::Int), Decl::new("q", Ty::Int)],
+            vec![
+                S::Assign(LV::Idx("a".into(), vec![l(0)]), l(10)),
+                S::Assign(LV::Idx("a".into(), vec![l(2)]), l(12)),
+                assign("b", var("a")),
+                S::Assign(LV::Idx("a".into(), vec![l(0)]), l(99)),
+                S::Assign(LV::Idx("b".into(), vec![l(2)]), l(77)),
+                assign("r", E::Idx("b".into(), vec![l(0)])),
+                assign("q", E::Idx("a".into(), vec![l(2)])),
+            ],
+        );
+        out.push(case("F8", "array1:copy-is-by-value".into(), p, 2, true));
+        let mut p = prog(
+            vec![
+                Decl { name: "s".into(), ty: TyX::Struct("Pair".into()), init: None },
+                Decl { name: "t".into(), ty: TyX::Struct("Pair".into()), init: None },
+                Decl::new("r", Ty::Int),
+                Decl::new("q", Ty::Int),
+            ],
+            vec![
+                S::Assign(LV::Fld("s".into(), "g".into()), l(5)),
+                assign("t", var("s")),
+                S::Assign(LV::Fld("s".into(), "g".into()), l(6)),
+                S::Assign(LV::Fld("t".into(), "g".into()), bin(Op::Add, E::Fld("t".into(), "g".into()), l(10))),
+                assign("r", E::Fld("t".into(), "g".into())),
+                assign("q", E::Fld("s".into(), "g".into())),
+            ],
+        );
+        p.structs.push(StructDef { name: "Pair".into(), fields: vec![("f".into(), Ty::DInt), ("g".into(), Ty::Int)] });
+        out.push(case("F8", "struct:copy-is-by-value".into(), p, 2, true));
     }
     // struct fields: write one, read the other, copy
     {
